@@ -13,18 +13,20 @@ structure Engine where
   compiles : String → Bool
   search : String → String → Bool
 
+/-- the expression a pattern stands for: the text between the slashes of `/re/`, or the
+anchored, quoted literal -/
+def baseExpr (pattern : String) : String :=
+  let cs := pattern.toList
+  if cs.head? == some '/' && cs.getLast? == some '/' && 2 ≤ cs.length
+  then String.ofList ((cs.drop 1).take (cs.length - 2))
+  else "^" ++ quoteMeta pattern ++ "$"
+
 /-- `compileRegexp`: the expression text handed to `regexp.Compile` -/
 def compileExpr (pattern : String) (exactCase : Bool) : String :=
-  let cs := pattern.toList
-  let expr :=
-    if cs.head? == some '/' && cs.getLast? == some '/' && 2 ≤ cs.length
-    then String.ofList ((cs.drop 1).take (cs.length - 2))
-    else "^" ++ quoteMeta pattern ++ "$"
-  if exactCase then expr else goToLower expr
+  if exactCase then baseExpr pattern else "(?i)" ++ baseExpr pattern
 
-/-- the subject string that is searched -/
-def matchSubject (ident : String) (exactCase : Bool) : String :=
-  if exactCase then ident else goToLower ident
+/-- the subject string that is searched: the path itself, whatever the case rule -/
+def matchSubject (ident : String) (_exactCase : Bool) : String := ident
 
 /-- `option.PatternMatcher`: `reOk = false` is the nil `*regexp.Regexp` left behind by a failed,
 unchecked recompilation. -/
@@ -44,6 +46,19 @@ def PM.match (eng : Engine) (m : PM) (ident : String) (exactCase : Bool) : Outco
     then ⟨m.pattern, exactCase, eng.compiles (compileExpr m.pattern exactCase)⟩ else m
   if m'.reOk then (.ok (eng.search (compileExpr m'.pattern exactCase) (matchSubject ident exactCase)), m')
   else (.panic "PatternMatcher.Match: nil regexp", m')
+
+/-- the stateless answer for `(pattern, path, case rule)`; `.panic` is the nil regexp -/
+def matchFn (eng : Engine) (pattern ident : String) (exactCase : Bool) : Outcome Bool :=
+  if eng.compiles (compileExpr pattern exactCase)
+  then .ok (eng.search (compileExpr pattern exactCase) (matchSubject ident exactCase))
+  else .panic "PatternMatcher.Match: nil regexp"
+
+/-- run a sequence of queries on one matcher, as `Options.ShouldSkip` does over a method's fields -/
+def runQueries (eng : Engine) : PM → List (String × Bool) → List (Outcome Bool)
+  | _, [] => []
+  | m, (ident, exact) :: qs =>
+    let (r, m') := PM.match eng m ident exact
+    r :: runQueries eng m' qs
 
 /-- `IdentMatcher` -/
 def identPaths (pattern : String) : List String := pattern.splitOn "."
@@ -177,17 +192,24 @@ def lookupConverterFunc (env : Env) (sc : Scope) (name : String) : Except String
       if env.isErrorType e then .ok (a, r, true) else .error s!"function {name} cannot use as a converter"
     | _, _ => .error s!"function {name} cannot use as a converter"
 
-/-- `lookupManipulatorFunc`; `.panic` is `make([]types.Type, n-2)` with `n < 2` -/
-def lookupManipulatorFunc (env : Env) (sc : Scope) (name optName pos : String) : Outcome ManipOpt :=
+/-- `lookupManipulatorFunc`: the hook, or the error text that follows the position, or the crash
+`make([]types.Type, n-2)` with `n < 2` -/
+inductive ManipLookup where
+  | ok (m : ManipOpt)
+  | error (text : String)
+  | panic (site : String)
+  deriving Repr, Inhabited
+
+def lookupManipulatorFunc (env : Env) (sc : Scope) (name optName pos : String) : ManipLookup :=
   match lookupType env sc name with
-  | .notFound => .error [s!"{pos}: function {name} not found"]
-  | .notFunc => .error [s!"{pos}: {name} isn't a function"]
+  | .notFound => .error s!"function {name} not found"
+  | .notFunc => .error s!"{name} isn't a function"
   | .func sig =>
     let badResult := match sig.results with
       | [] => false
       | [e] => !env.isErrorType e
       | _ => true
-    if badResult then .error [s!"{pos}: function {name} cannot use for {optName} func"] else
+    if badResult then .error s!"function {name} cannot use for {optName} func" else
     match sig.params with
     | d :: s :: rest =>
       .ok { name := sig.name, pkgPath := sig.pkgPath, exported := sig.exported, dstSide := d, srcSide := s,
@@ -215,94 +237,122 @@ structure ParseResult where
   stdout : List String := []
   deriving Repr, Inhabited
 
-/-- one notation line; `posReverse` is threaded for the final validation.  Errors are the
-`logger.Errorf` texts; `.panic` for the two crashes in this function. -/
+/-- what one valid notation does to the options -/
+inductive Effect where
+  | opts (o : Options)
+  /-- `:reverse`: the position is remembered for the final validation -/
+  | reverse (o : Options)
+  /-- `logger.Errorf("<pos>: <text>")` -/
+  | error (text : String)
+  | panic (site : String)
+  /-- valid name without a `case`: a line on stdout -/
+  | unknown
+  deriving Inhabited
+
+def styleEffect (opts : Options) (args : List String) : Effect :=
+  match args with
+  | [] => .error "needs <style> arg"
+  | a :: _ =>
+    if a == "return" then .opts { opts with style := .ret }
+    else if a == "arg" then .opts { opts with style := .arg }
+    else .error "invalid <style> arg"
+
+def matchEffect (opts : Options) (args : List String) : Effect :=
+  match args with
+  | [] => .error "needs <algorithm> arg"
+  | a :: _ =>
+    if a == "name" then .opts { opts with rule := .name }
+    else if a == "tag" then .opts { opts with rule := .tag }
+    else if a == "none" then .opts { opts with rule := .none }
+    else .error "invalid <algorithm> arg"
+
+def recvEffect (opts : Options) (args : List String) : Effect :=
+  match args with
+  | [] => .error "needs name for the receiver"
+  | a :: _ => if isValidIdentifier a then .opts { opts with receiver := a } else .error "invalid ident"
+
+def skipEffect (eng : Engine) (opts : Options) (args : List String) : Effect :=
+  match args with
+  | [] => .error "needs <field> arg"
+  | a :: _ =>
+    match PM.new eng a opts.exactCase with
+    | none => .error "invalid regexp"
+    | some m => .opts { opts with skipFields := opts.skipFields ++ [m] }
+
+def mapEffect (opts : Options) (pos : String) (args : List String) : Effect :=
+  match args with
+  | src :: dst :: _ =>
+    let m : NameMatcher := ⟨src, dst, pos⟩
+    if src.toList.head? == some '$'
+    then .opts { opts with templatedNameMapper := opts.templatedNameMapper ++ [m] }
+    else .opts { opts with nameMapper := opts.nameMapper ++ [m] }
+  | _ => .error "needs <src> <dst> args"
+
+def convEffect (opts : Options) (pos : String) (args : List String) : Effect :=
+  match args with
+  | fn :: src :: more =>
+    let dst := match more with | d :: _ => d | [] => src
+    .opts { opts with converters := opts.converters ++ [{ fn := fn, src := src, dst := dst, pos := pos }] }
+  | _ => .error "needs <src> <dst> args"
+
+def literalEffect (opts : Options) (pos rest : String) (args : List String) : Effect :=
+  match args with
+  | dst :: _ :: _ =>
+    match matchLiteral rest with
+    | some lit => .opts { opts with literals := opts.literals ++ [⟨dst, lit, pos⟩] }
+    | none => .panic "parseNotationInComments: reLiteral did not match (index out of range)"
+  | _ => .error "needs <dst> <literal> args"
+
+def hookEffect (env : Env) (sc : Scope) (pos optName : String) (args : List String)
+    (set : ManipOpt → Options) : Effect :=
+  match args with
+  | [] => .error "needs <func> arg"
+  | a :: _ =>
+    match lookupManipulatorFunc env sc a optName pos with
+    | .ok m => .opts (set m)
+    | .error e => .error e
+    | .panic s => .panic s
+
+/-- the big `switch` of `parseNotationInComments` -/
+def notationEffect (env : Env) (sc : Scope) (eng : Engine) (opts : Options) (pos name rest : String) : Effect :=
+  let args := fields rest
+  match name with
+  | "convergen" => .opts opts
+  | "style" => styleEffect opts args
+  | "match" => matchEffect opts args
+  | "case" => .opts { opts with exactCase := true }
+  | "case:off" => .opts { opts with exactCase := false }
+  | "getter" => .opts { opts with getter := true }
+  | "getter:off" => .opts { opts with getter := false }
+  | "stringer" => .opts { opts with stringer := true }
+  | "stringer:off" => .opts { opts with stringer := false }
+  | "typecast" => .opts { opts with typecast := true }
+  | "typecast:off" => .opts { opts with typecast := false }
+  | "recv" => recvEffect opts args
+  | "reverse" => .reverse { opts with reverse := true }
+  | "skip" => skipEffect eng opts args
+  | "map" => mapEffect opts pos args
+  | "conv" => convEffect opts pos args
+  | "literal" => literalEffect opts pos rest args
+  | "preprocess" => hookEffect env sc pos "preprocess" args (fun m => { opts with preProcess := some m })
+  | "postprocess" => hookEffect env sc pos "postprocess" args (fun m => { opts with postProcess := some m })
+  | _ => .unknown
+
+/-- one notation line; `posReverse` is threaded for the final validation.  Every diagnostic is the
+position of the line followed by the error text. -/
 def applyNotation (env : Env) (sc : Scope) (eng : Engine) (validOps : List String)
     (st : ParseResult × String) (n : Comment) : Outcome (ParseResult × String) :=
   let (res, posReverse) := st
-  let opts := res.opts
   match matchNotation n.text with
   | none => .error ["invalid notation format []string(nil)"]
   | some (name, rest) =>
-    let args := fields rest
     if !validOps.contains name then .ok st else
-    let ok (o : Options) : Outcome (ParseResult × String) := .ok ({ res with opts := o }, posReverse)
-    let err (msg : String) : Outcome (ParseResult × String) := .error [s!"{n.pos}: {msg}"]
-    match name with
-    | "convergen" => .ok st
-    | "style" =>
-      match args with
-      | [] => err "needs <style> arg"
-      | a :: _ =>
-        if a == "return" then ok { opts with style := .ret }
-        else if a == "arg" then ok { opts with style := .arg }
-        else err "invalid <style> arg"
-    | "match" =>
-      match args with
-      | [] => err "needs <algorithm> arg"
-      | a :: _ =>
-        if a == "name" then ok { opts with rule := .name }
-        else if a == "tag" then ok { opts with rule := .tag }
-        else if a == "none" then ok { opts with rule := .none }
-        else err "invalid <algorithm> arg"
-    | "case" => ok { opts with exactCase := true }
-    | "case:off" => ok { opts with exactCase := false }
-    | "getter" => ok { opts with getter := true }
-    | "getter:off" => ok { opts with getter := false }
-    | "stringer" => ok { opts with stringer := true }
-    | "stringer:off" => ok { opts with stringer := false }
-    | "typecast" => ok { opts with typecast := true }
-    | "typecast:off" => ok { opts with typecast := false }
-    | "recv" =>
-      match args with
-      | [] => err "needs name for the receiver"
-      | a :: _ => if isValidIdentifier a then ok { opts with receiver := a } else err "invalid ident"
-    | "reverse" => .ok ({ res with opts := { opts with reverse := true } }, n.pos)
-    | "skip" =>
-      match args with
-      | [] => err "needs <field> arg"
-      | a :: _ =>
-        match PM.new eng a opts.exactCase with
-        | none => err "invalid regexp"
-        | some m => ok { opts with skipFields := opts.skipFields ++ [m] }
-    | "map" =>
-      match args with
-      | src :: dst :: _ =>
-        let m : NameMatcher := ⟨src, dst, n.pos⟩
-        if src.toList.head? == some '$'
-        then ok { opts with templatedNameMapper := opts.templatedNameMapper ++ [m] }
-        else ok { opts with nameMapper := opts.nameMapper ++ [m] }
-      | _ => err "needs <src> <dst> args"
-    | "conv" =>
-      match args with
-      | fn :: src :: more =>
-        let dst := match more with | d :: _ => d | [] => src
-        ok { opts with converters := opts.converters ++ [{ fn := fn, src := src, dst := dst, pos := n.pos }] }
-      | _ => err "needs <src> <dst> args"
-    | "literal" =>
-      match args with
-      | dst :: _ :: _ =>
-        match matchLiteral rest with
-        | some lit => ok { opts with literals := opts.literals ++ [⟨dst, lit, n.pos⟩] }
-        | none => .panic "parseNotationInComments: reLiteral did not match (index out of range)"
-      | _ => err "needs <dst> <literal> args"
-    | "preprocess" =>
-      match args with
-      | [] => err "needs <func> arg"
-      | a :: _ =>
-        match lookupManipulatorFunc env sc a "preprocess" n.pos with
-        | .ok m => ok { opts with preProcess := some m }
-        | .error e => .error e
-        | .panic s => .panic s
-    | "postprocess" =>
-      match args with
-      | [] => err "needs <func> arg"
-      | a :: _ =>
-        match lookupManipulatorFunc env sc a "postprocess" n.pos with
-        | .ok m => ok { opts with postProcess := some m }
-        | .error e => .error e
-        | .panic s => .panic s
-    | other => .ok ({ res with stdout := res.stdout ++ [s!"{n.pos}: unknown notation {other}"] }, posReverse)
+    match notationEffect env sc eng res.opts n.pos name rest with
+    | .opts o => .ok ({ res with opts := o }, posReverse)
+    | .reverse o => .ok ({ res with opts := o }, n.pos)
+    | .error text => .error [n.pos ++ ": " ++ text]
+    | .panic s => .panic s
+    | .unknown => .ok ({ res with stdout := res.stdout ++ [s!"{n.pos}: unknown notation {name}"] }, posReverse)
 
 def foldOutcome {σ α : Type} (f : σ → α → Outcome σ) : σ → List α → Outcome σ
   | s, [] => .ok s
